@@ -222,6 +222,76 @@ def follow(data, trail):
     return lg.show_py(cur)
 
 
+def model_faults(rep):
+    """planted faults in a model whose layout has three mapping nodes: under ALL every planted fault is reported, each at
+    its node; under FIRST exactly one of them; under DISABLE without trail"""
+    import itertools
+    from dataclasses import dataclass
+
+    from adaptix import DebugTrail, Retort, name_mapping
+    from adaptix.load_error import AggregateLoadError, LoadError, NoRequiredFieldsLoadError, TypeLoadError
+    from adaptix.struct_trail import get_trail
+
+    @dataclass
+    class M:
+        a: int
+        b: int
+        c: int
+        d: int
+
+    recipe = [name_mapping(M, map={"a": ("outer", "a"), "b": ("outer", "inner", "b"), "c": ("other", "c")})]
+    good = {"outer": {"a": 1, "inner": {"b": 2}}, "other": {"c": 3}, "d": 4}
+    faults = {
+        "a-missing": (lambda x: x["outer"].pop("a"), ("missing", ("outer",), "a")),
+        "b-missing": (lambda x: x["outer"]["inner"].pop("b"), ("missing", ("outer", "inner"), "b")),
+        "c-missing": (lambda x: x["other"].pop("c"), ("missing", ("other",), "c")),
+        "d-missing": (lambda x: x.pop("d"), ("missing", (), "d")),
+        "a-ill": (lambda x: x["outer"].__setitem__("a", "x"), ("type", ("outer", "a"), None)),
+        "c-ill": (lambda x: x["other"].__setitem__("c", None), ("type", ("other", "c"), None)),
+    }
+    import copy
+    names = list(faults)
+    for k in (2, 3):
+        for combo in itertools.combinations(names, k):
+            if {"a-missing", "a-ill"} <= set(combo) or {"c-missing", "c-ill"} <= set(combo):
+                continue
+            data = copy.deepcopy(good)
+            want = set()
+            for nm in combo:
+                faults[nm][0](data)
+                want.add(faults[nm][1])
+            for mode in (DebugTrail.ALL, DebugTrail.FIRST, DebugTrail.DISABLE):
+                try:
+                    Retort(recipe=recipe, debug_trail=mode).load(data, M)
+                    rep.violation(f"model-faults:accepted:{mode.name}", "property-violated",
+                                  {"what": f"corrupted model input accepted under {mode.name}", "faults": combo, "input": repr(data)})
+                    continue
+                except AggregateLoadError as e:
+                    errs = list(e.exceptions)
+                except LoadError as e:
+                    errs = [e]
+                got = set()
+                for x in errs:
+                    tr = tuple(get_trail(x))
+                    if isinstance(x, NoRequiredFieldsLoadError):
+                        got |= {("missing", tr, f) for f in x.fields}
+                    elif isinstance(x, TypeLoadError):
+                        got.add(("type", tr, None))
+                    else:
+                        got.add((type(x).__name__, tr, None))
+                if mode == DebugTrail.ALL and got != want:
+                    rep.violation("model-faults:ALL-incomplete", "property-violated",
+                                  {"what": f"under ALL the planted faults {sorted(map(str, want))} are reported as {sorted(map(str, got))}",
+                                   "faults": combo, "input": repr(data)})
+                if mode == DebugTrail.FIRST and not (got and got <= want and len({t for _, t, _ in got}) == 1):
+                    rep.violation("model-faults:FIRST", "property-violated",
+                                  {"what": f"under FIRST {sorted(map(str, got))} is reported; expected errors of one node among {sorted(map(str, want))}",
+                                   "faults": combo, "input": repr(data)})
+                if mode == DebugTrail.DISABLE and any(t for _, t, _ in got):
+                    rep.violation("model-faults:DISABLE-trail", "property-violated",
+                                  {"what": "a trail is attached under DISABLE", "faults": combo})
+
+
 def run(rep, tier, seed):
     from adaptix import load_error as le
     proof = lib.proof_stage(rep, PID)
@@ -249,6 +319,7 @@ def run(rep, tier, seed):
                 cases.append((mi, True, t, bad))
             meta.append((t, v, chosen, bad, expected))
     expected_out, badm = lg.correspond(rep, PID, cases)
+    model_faults(rep)
     # ---- direct oracle on the library
     viol = 0
     for i, (t, v, chosen, bad, expected) in enumerate(meta):
